@@ -151,6 +151,15 @@ def gen_cases(rng, tier):
     # PBT pairs with model lines (appended last: the cases above stay the same for a seed)
     for _ in range(25 if tier == "quick" else 300):
         yield dict(pbt.gen_case(rng, tier), pbt=True, twin=True)
+    # PASHA pairs long enough for its soft ranking to matter: several trials in the top rung, crossing learning curves (the
+    # automatic epsilon becomes positive), exact promotion quantiles (reduction factor 2 or 4)
+    for _ in range(10 if tier == "quick" else 120):
+        c = {"type": "pasha", "mode": "min", "grace_period": 1, "reduction_factor": rng.choice(["2", "2", "4"]),
+             "max_t": rng.choice([16, 32, 64]), "brackets": 1, "rung_system_per_bracket": False, "searcher_data": "rungs",
+             "register_pending_myopic": False, "random_seed": rng.randrange(1000), "max_resource_attr": rng.random() < 0.5}
+        yield {"hb": True, "ctor": c, "seed": rng.randrange(10 ** 9), "n_workers": rng.randint(2, 5),
+               "max_events": 200 if tier == "quick" else 300, "style": rng.choice(["general", "general", "grid"]),
+               "checkpointing": rng.random() < 0.5, "p_fail": 0}
 
 
 def corpus():
